@@ -31,6 +31,19 @@ CLAIMED = {
              ref="DESIGN.md 4 (C02), 1 (single-task claims)", note="Trusted: BTree::verify() as the statement's self-check; the simulated allocator behaves like a conforming allocator; ASan on the same histories. -DNDEBUG like the shipped library.", tech=TECH_SEQ),
 }
 PENDING = []
+# dimensions added later, driven by the seeded "unusual but legal usage" changes (DESIGN.md 12)
+ADDED = {
+ "C10": "Added later: job closures with observable destructors that enqueue continuations, jobs ending with a caught std::exception, up to three terminating jobs, jobs that own an inner pool and wait for it, pools of up to 6 workers.",
+ "C11": "Added later: requests for zero tokens, up to 6 threads and 8 generations, the team moving on to a second barrier object, actions that read step() of their barrier.",
+ "C12": "Added later: handles that live inside managed objects (link / advance / push_front histories, never a cycle), inspection from inside the dying object (no handle variable still points to it; a solely owned successor is gone the moment its handle lets go), make_counting with a self-registering constructor, a derived class whose counted base is not its first base, last owner letting go through reset() under the no-op deleter, concurrent unify/swap and threads copying the single handle.",
+ "C06": "Added later: 24/32 and SIZE_MAX thread counts, std::deque and reverse-iterator ranges, a comparator with run-time state and an unsynchronised call counter (a shared instance is a race; moved-from arguments are recorded), element types with an adversarial operator<.",
+ "C07": "Added later: 17-48 short sequences, sequences in std::deque, a second trivially copyable element type, an element type that knows its own address (assignment to / copy from raw storage), a comparator with an unsynchronised call counter, adversarial operator<.",
+ "C04": "Added later: 19 variants incl. the char front ends, thorough-tier runs with the default thresholds (> 1 Mi strings) and of 65535..65537 strings.",
+ "C16": "Added later: allocator instances that compare unequal, pushes of references to own elements, copies of storage-less buffers, an element type on which braces and parentheses disagree and which overloads operator&, emplace with constructor arguments, SimpleVector<size_t> with resize(v[k]). Storage blocks never returned are counted, not judged.",
+ "C17": "Added later: LRU caches with heap-owning keys and values and with an allocator instance, put(k, get(k)) and erase(get(k)), spines of 65+ equal keys, node pointers kept over insertions, traversal with a collecting function object. LRU nodes never returned are counted, not judged.",
+ "C02": "Added later: 13 instantiations incl. tlx::BTree used directly and a comparator with run-time state, big trees (bulk loads of up to 400 keys, long erase phases), allocator instances that compare unequal, keys whose move empties the source, arguments that alias the tree (insert(*it), erase(it.key())), construction and assignment from rvalues, bulk_load from deques and reverse iterators.",
+}
+
 NA = {
  "C01":"pure function of a single-threaded call history: no schedule, clock, fault or environment seam in the statement (model-based testing, not simulation) - DESIGN.md 5",
  "C03":"sequential string sorts are pure functions of (strings, memory limit); nothing for a scheduler or fault injector to own - DESIGN.md 5",
@@ -56,7 +69,7 @@ def main():
             "evidence_file": "/verif/evidence/%s.json" % pid,
             "replay_cmd_template": "python3 run/check.py %s --replay {path}" % pid,
             "engine": "sim",
-            "level_claimed": {"category": "exploration", "text": c["text"], "design_ref": c["ref"]},
+            "level_claimed": {"category": "exploration", "text": c["text"] + " " + ADDED.get(pid, ""), "design_ref": c["ref"]},
             "level_note": c["note"],
             "technique": c["tech"],
         })
